@@ -872,6 +872,50 @@ fn c18_concurrent(acc: &mut CompAcc) {
             acc.state(&(ka, kb, calls, out.executions), out.executions > 1);
         }
     }
+    // the same with a key type whose `Hash` impl yields to the scheduler (user code runs inside
+    // hash_index / hash_conflict: another thread may use the builder in between), after the
+    // builder has already served a different key
+    #[derive(PartialEq, Eq, Clone)]
+    struct YieldingKey(String);
+    impl std::hash::Hash for YieldingKey {
+        fn hash<H: std::hash::Hasher>(&self, h: &mut H) {
+            rt::thread::yield_now();
+            self.0.hash(h)
+        }
+    }
+    for (ka, kb) in [("alpha", "alpha"), ("alpha", "beta")] {
+        acc.cases += 1;
+        let out = rt::explore(
+            rt::ExploreCfg { bound: 2, ..Default::default() },
+            Arc::new(move || {
+                let b = Arc::new(DefaultKeyBuilder::<YieldingKey>::default());
+                let _ = b.build_key(&YieldingKey("zeta".into()));
+                let hs: Vec<_> = [ka, kb]
+                    .into_iter()
+                    .map(|k| {
+                        let b = b.clone();
+                        rt::thread::spawn(move || b.build_key(&YieldingKey(k.to_string())))
+                    })
+                    .collect();
+                let got: Vec<(u64, u64)> = hs.into_iter().map(|h| h.join().unwrap()).collect();
+                for (k, seen) in [ka, kb].into_iter().zip(got) {
+                    let now = b.build_key(&YieldingKey(k.to_string()));
+                    let again = b.build_key(&YieldingKey(k.to_string()));
+                    assert!(seen == now && now == again, "key {:?} was mapped to {:?} by a client thread, the builder now maps it to {:?} / {:?}", k, seen, now, again);
+                }
+            }),
+        );
+        acc.ops += out.executions;
+        if let Some(v) = out.violations.first() {
+            acc.fail("keybuilder-unstable-under-concurrency", format!("{} ({} of {} schedules)", v.msg, out.violations.len(), out.executions));
+            return;
+        }
+        if !out.complete {
+            acc.fail("machinery", format!("exploration incomplete: {:?}", out.cap));
+            return;
+        }
+        acc.state(&(ka, kb, "yielding-hash", out.executions), out.executions > 1);
+    }
 }
 
 fn boundary_i128(bits: u32, signed: bool) -> Vec<i128> {
